@@ -1,3 +1,430 @@
+/-
+C09 — Item equality is reflexive, nil-correct and identity-sensitive.
+Model: `Model/Equal.lean` (fuel-indexed transcription of ItemsEqual and the Equals methods, comparison
+rows regenerated from the source into `Generated/Equals.lean`; tied to the code by the `itemsEqual`
+correspondence op).
+
+The model answers `some b` or `none` ("outside the model": two objects of different Go structs, which go
+through the typed views of C08, or not enough fuel). All theorems are of the form "the model never gives
+the wrong answer", for EVERY pair of value trees and EVERY amount of fuel; together with the
+correspondence (which compares every `some b` with the implementation) this is partial correctness of
+the property on the modelled domain.
+-/
 import APModel.Model.Equal
+import APModel.Props.C14
+
 namespace APModel.Equal
+open APModel APModel.Generated
+
+/-! ### helper lemmas -/
+
+theorem andO_ne_false (a : Option Bool) (b : Unit → Option Bool)
+    (ha : a ≠ some false) (hb : b () ≠ some false) : andO a b ≠ some false := by
+  unfold andO
+  cases a with
+  | none => simp
+  | some x => cases x <;> simp_all
+
+theorem allO_ne_false {α : Type} (f : α → Option Bool) (l : List α)
+    (h : ∀ x ∈ l, f x ≠ some false) : allO f l ≠ some false := by
+  induction l with
+  | nil => simp [allO]
+  | cons a r ih =>
+    simp only [allO]
+    exact andO_ne_false _ _ (h a List.mem_cons_self) (ih (fun x hx => h x (List.mem_cons_of_mem _ hx)))
+
+theorem anyO_ne_false {α : Type} (f : α → Option Bool) (l : List α) (x : α) (hx : x ∈ l)
+    (h : f x ≠ some false) : anyO f l ≠ some false := by
+  induction l with
+  | nil => simp at hx
+  | cons a r ih =>
+    simp only [anyO]
+    rcases List.mem_cons.mp hx with rfl | hx'
+    · cases hf : f x with
+      | none => simp
+      | some b => cases b <;> simp_all
+    · cases hf : f a with
+      | none => simp
+      | some b =>
+        cases b
+        · simpa using ih hx'
+        · simp
+
+theorem andO_first_false (b : Unit → Option Bool) : andO (some false) b = some false := rfl
+
+theorem andO_ne_true_of_first (a : Option Bool) (b : Unit → Option Bool) (ha : a ≠ some true) :
+    andO a b ≠ some true := by
+  unfold andO
+  cases a with
+  | none => simp
+  | some x => cases x <;> simp_all
+
+theorem nlvEquals_refl (n : List (Str × Str)) : nlvEquals n n = true := by
+  simp only [nlvEquals, beq_self_eq_true, Bool.true_and, List.all_eq_true, List.any_eq_true]
+  intro e he; exact ⟨e, he, by simp⟩
+
+theorem optBeq_refl (v : Option FVal) : Copy.optBeq v v = true := by
+  cases v <;> simp [Copy.optBeq, FVal.beq_refl]
+
+theorem iriEqv_refl (s : Str) : iriEqv s s = true := IRI.C14_refl _ _ _
+theorem iriEqvCS_refl (s : Str) : iriEqvCS s s = true := IRI.C14_refl _ _ _
+theorem iriEqvCS_symm (a b : Str) : iriEqvCS a b = iriEqvCS b a := IRI.C14_symm_concrete a b true
+
+/-- comparators the model knows (an unknown one is answered `false`, which no theorem below accepts) -/
+def knownRow (row : String × String × String) : Bool :=
+  ["items", "equalsW", "equalsO", "time", "value", "iri"].contains row.2.2 ||
+  (row.2.2 == "link" && row.2.1 == "notNilLike")
+
+def KnownRows (T : List EqualsRow) : Prop := ∀ r ∈ T, ∀ row ∈ r.rows, knownRow row = true
+
+theorem knownRows_rowsOf (T : List EqualsRow) (h : KnownRows T) (recv : String) :
+    ∀ row ∈ rowsOf T recv, knownRow row = true := by
+  intro row hrow
+  unfold rowsOf at hrow
+  cases hf : T.find? (fun r => r.recv == recv) with
+  | none => simp [hf] at hrow
+  | some r =>
+    simp [hf] at hrow
+    exact h r (List.mem_of_find?_eq_some hf) row hrow
+
+theorem listEquals_self (rec : Rec) (hrec : ∀ y, rec y y ≠ some false) (w : Item) (hn : w.isNilLike = false)
+    (hc : isColl w = true) : listEquals rec (membersOf w) w ≠ some false := by
+  simp only [listEquals, hn, hc, Bool.false_eq_true, if_false, Bool.not_true, bne_self_eq_false]
+  exact allO_ne_false _ _ (fun it hit => anyO_ne_false _ _ it hit (hrec it))
+
+theorem knownRow_cases (f g c : String) (hk : knownRow (f, g, c) = true) :
+    c = "items" ∨ c = "equalsW" ∨ c = "equalsO" ∨ c = "time" ∨ c = "value" ∨
+    c = "iri" ∨ (c = "link" ∧ g = "notNilLike") := by
+  simp only [knownRow, List.contains_cons, List.contains_nil, Bool.or_false, Bool.or_eq_true, beq_iff_eq,
+    Bool.and_eq_true] at hk
+  rcases hk with (h | h | h | h | h | h) | h
+  · exact Or.inl h
+  · exact Or.inr (Or.inl h)
+  · exact Or.inr (Or.inr (Or.inl h))
+  · exact Or.inr (Or.inr (Or.inr (Or.inl h)))
+  · exact Or.inr (Or.inr (Or.inr (Or.inr (Or.inl h))))
+  · exact Or.inr (Or.inr (Or.inr (Or.inr (Or.inr (Or.inl h)))))
+  · exact Or.inr (Or.inr (Or.inr (Or.inr (Or.inr (Or.inr h)))))
+
+theorem rowHolds_self (rec : Rec) (hrec : ∀ y, rec y y ≠ some false) (o : Fields)
+    (row : String × String × String) (hk : knownRow row = true) : rowHolds rec o o row ≠ some false := by
+  obtain ⟨f, g, c⟩ := row
+  have hc := knownRow_cases f g c hk
+  simp only [rowHolds]
+  split
+  · simp
+  · rename_i hg
+    rcases hc with rfl | rfl | rfl | rfl | rfl | rfl | ⟨rfl, rfl⟩
+    · exact hrec _
+    · -- equalsW
+      cases hv : o.get? f with
+      | none => simp [optBeq_refl]
+      | some v =>
+        cases v <;> simp [optBeq_refl, nlvOf, nlvEquals_refl]
+        rename_i l
+        have := listEquals_self rec hrec (.coll false l) (by simp [Item.isNilLike]) (by simp [isColl])
+        simpa [membersOf, itemOfField] using this
+    · -- equalsO
+      cases hv : o.get? f with
+      | none => simp [optBeq_refl]
+      | some v =>
+        cases v <;> simp [optBeq_refl, nlvOf, nlvEquals_refl]
+        rename_i l
+        have := listEquals_self rec hrec (.coll false l) (by simp [Item.isNilLike]) (by simp [isColl])
+        simpa [membersOf, itemOfField] using this
+    · simp
+    · simp [optBeq_refl]
+    · simp [iriEqv_refl]
+    · -- link, guarded by notNilLike
+      simp only [Bool.not_eq_true'] at hg
+      have hg' : guardHolds "notNilLike" (o.get? f) = true := by simpa using hg
+      cases hv : o.get? f with
+      | none => simp [hv, guardHolds] at hg'
+      | some v =>
+        rw [hv] at hg'
+        simp only [guardHolds, Bool.not_eq_true'] at hg'
+        simp [hg', iriEqv_refl]
+
+theorem rowsHold_self (T : List EqualsRow) (hT : KnownRows T) (rec : Rec) (hrec : ∀ y, rec y y ≠ some false)
+    (recv : String) (o : Fields) : rowsHold T rec recv o o ≠ some false :=
+  allO_ne_false _ _ (fun row hrow => rowHolds_self rec hrec o row (knownRows_rowsOf T hT recv row hrow))
+
+theorem objectGuards_self (k : Kind) (p : Bool) (o : Fields) (hk : k ≠ .link) :
+    objectGuards o (.node k p o) = true := by
+  have hl : Flatten.isLinkM (.node k p o) = false := by cases k <;> simp_all [Flatten.isLinkM]
+  simp [objectGuards, Item.isNilLike, isColl, Flatten.linkOf, typeOf, iriEqvCS_refl, IRI.foldEq_refl, hl]
+
+theorem objectEquals_self (T : List EqualsRow) (hT : KnownRows T) (rec : Rec) (hrec : ∀ y, rec y y ≠ some false)
+    (k : Kind) (p : Bool) (o : Fields) (hk : k ≠ .link) : objectEquals T rec o (.node k p o) ≠ some false := by
+  have hb : (k == Kind.link) = false := by simpa using hk
+  simp only [objectEquals, objectGuards_self k p o hk, Bool.not_true, Bool.false_eq_true, if_false, hb]
+  exact rowsHold_self T hT rec hrec "Object" o
+
+theorem collectionEquals_self (T : List EqualsRow) (hT : KnownRows T) (rec : Rec) (hrec : ∀ y, rec y y ≠ some false)
+    (k : Kind) (p : Bool) (c : Fields) (hk : k ≠ .link) : collectionEquals T rec c k p c ≠ some false :=
+  andO_ne_false _ _ (objectEquals_self T hT rec hrec k p c hk) (rowsHold_self T hT rec hrec "Collection" c)
+
+theorem needSwap_self (x : Item) : needSwap x x = false := by
+  simp [needSwap]
+
+/-! ### property theorems -/
+
+/-- Reflexivity, in the "never the wrong answer" form: for EVERY value tree and every amount of fuel the
+model never answers that a value differs from itself (it answers `true`, or declares the comparison
+outside its domain). -/
+theorem C09_refl (T : List EqualsRow) (hT : KnownRows T) : ∀ (n : Nat) (x : Item), eqF T n x x ≠ some false := by
+  intro n
+  induction n with
+  | zero => intro x; simp [eqF]
+  | succ n ih =>
+    intro x
+    simp only [eqF, needSwap_self, Bool.false_eq_true, if_false, Bool.or_self, Bool.and_self]
+    split
+    · rename_i h; simp [h]
+    · rename_i hnil
+      have hnil' : x.isNilLike = false := by simpa using hnil
+      simp only [core]
+      split
+      · rename_i hi; simp [iriEqv_refl]
+      · split
+        · rename_i hc
+          simp only [hc, Bool.not_true, Bool.false_eq_true, if_false]
+          exact listEquals_self (eqF T n) ih x hnil' hc
+        · -- struct values
+          cases x with
+          | node k p o =>
+            cases k with
+            | link =>
+              simp only [linkEquals, iriEqvCS_refl, IRI.foldEq_refl, Bool.and_self, Bool.not_true, Bool.false_eq_true, if_false]
+              exact rowsHold_self T hT (eqF T n) ih "Link" o
+            | _ =>
+              simp only [beq_self_eq_true, if_true, reduceCtorEq, Bool.false_eq_true, if_false]
+              all_goals first
+                | (simp only [(by decide : (Kind.object == Kind.link) = false)]; done)
+                | skip
+              all_goals
+                simp only [familyEquals]
+                repeat' split
+                all_goals first
+                  | exact objectEquals_self T hT (eqF T n) ih _ p o (by decide)
+                  | exact collectionEquals_self T hT (eqF T n) ih _ p o (by decide)
+                  | (apply andO_ne_false <;> first
+                      | exact objectEquals_self T hT (eqF T n) ih _ p o (by decide)
+                      | exact collectionEquals_self T hT (eqF T n) ih _ p _ (by decide)
+                      | exact rowsHold_self T hT (eqF T n) ih _ o
+                      | (apply andO_ne_false <;> first
+                          | exact objectEquals_self T hT (eqF T n) ih _ p o (by decide)
+                          | exact collectionEquals_self T hT (eqF T n) ih _ p _ (by decide)
+                          | exact rowsHold_self T hT (eqF T n) ih _ o))
+                  | simp
+          | _ => simp_all [Item.isNilLike, isIRI, isColl]
+
+/-- Nil-correctness: two nil-like items are equal; a nil-like item and a non-nil one are unequal in
+either argument order — whenever there is any fuel at all. -/
+theorem C09_nil (T : List EqualsRow) (n : Nat) (a b : Item) (h : a.isNilLike = true ∨ b.isNilLike = true) :
+    eqF T (n + 1) a b = some (a.isNilLike && b.isNilLike) := by
+  simp only [eqF]
+  rcases h with h | h <;> simp [h]
+
+theorem C09_nil_equal (T : List EqualsRow) (a b : Item) (ha : a.isNilLike = true) (hb : b.isNilLike = true) :
+    itemsEqual T a b = some true := by
+  simp [itemsEqual, C09_nil T _ a b (Or.inl ha), ha, hb]
+
+theorem C09_nil_unequal (T : List EqualsRow) (a b : Item) (ha : a.isNilLike = true) (hb : b.isNilLike = false) :
+    itemsEqual T a b = some false ∧ itemsEqual T b a = some false := by
+  simp [itemsEqual, C09_nil T _ a b (Or.inl ha), C09_nil T _ b a (Or.inr ha), ha, hb]
+
+/-- the generated table only uses comparators the model knows. -/
+theorem C09_known_rows : KnownRows equalsRows := by
+  intro r hr row hrow
+  revert row; revert r
+  decide
+
+/-- Reflexivity of ItemsEqual on the model, for every item. -/
+theorem C09_refl_items (x : Item) : itemsEqual equalsRows x x ≠ some false :=
+  C09_refl equalsRows C09_known_rows _ x
+
+theorem get_swapItems : ∀ (fs : Fields) (nm : String), nm ≠ "Items" → nm ≠ "OrderedItems" →
+    (swapItems fs).get? nm = fs.get? nm
+  | .nil, _, _, _ => rfl
+  | .cons n v r, nm, h1, h2 => by
+    simp only [swapItems, Fields.get?]
+    by_cases hn : n = nm
+    · subst hn; simp [h1, h2]
+    · by_cases hi : n = "Items"
+      · subst hi
+        have : ¬ ("OrderedItems" = nm) := fun e => h2 e.symm
+        simp [this, hn, get_swapItems r nm h1 h2]
+      · by_cases ho : n = "OrderedItems"
+        · subst ho
+          have : ¬ ("Items" = nm) := fun e => h1 e.symm
+          simp [this, hn, get_swapItems r nm h1 h2]
+        · simp [hi, ho, hn, get_swapItems r nm h1 h2]
+
+/-- Identity-sensitivity at the object core: a value whose id is not equivalent to the other's, or whose
+type differs from it ignoring case, never passes `Object.Equals` — in either direction. -/
+theorem C09_guards (o : Fields) (w : Item)
+    (h : iriEqvCS (Flatten.strOf o "ID") (Flatten.linkOf w) = false ∨ IRI.foldEq (Flatten.strOf o "Type") (typeOf w) = false)
+    (T : List EqualsRow) (rec : Rec) : objectEquals T rec o w = some false := by
+  have : objectGuards o w = false := by
+    rcases h with h | h <;> simp [objectGuards, h]
+  simp [objectEquals, this]
+
+/-- Two objects of the same struct whose ids are not equivalent, or whose types differ ignoring case, are
+never equal: the model never answers `true`. -/
+theorem C09_identity (T : List EqualsRow) (n : Nat) (k : Kind) (p q : Bool) (o w : Fields)
+    (h : iriEqvCS (Flatten.strOf o "ID") (Flatten.strOf w "ID") = false ∨
+         IRI.foldEq (Flatten.strOf o "Type") (Flatten.strOf w "Type") = false) :
+    core T (eqF T n) (.node k p o) (.node k q w) ≠ some true := by
+  have h1 : ∀ (kk : Kind) (pp : Bool) (rec : Rec), objectEquals T rec o (.node kk pp w) = some false := by
+    intro kk pp rec
+    exact C09_guards o _ (by simpa [Flatten.linkOf, typeOf] using h) T rec
+  have h2 : ∀ (kk : Kind) (pp : Bool) (rec : Rec), objectEquals T rec w (.node kk pp o) = some false := by
+    intro kk pp rec
+    refine C09_guards w _ ?_ T rec
+    rcases h with h | h
+    · left; rw [iriEqvCS_symm]; simpa [Flatten.linkOf] using h
+    · right; rw [IRI.foldEq_symm]; simpa [typeOf] using h
+  have h3 : ∀ (kk : Kind) (pp : Bool) (rec : Rec),
+      objectEquals T rec (swapItems o) (.node kk pp (swapItems w)) ≠ some true ∧
+      objectEquals T rec (swapItems w) (.node kk pp (swapItems o)) ≠ some true := by
+    intro kk pp rec
+    have hs : ∀ (fs : Fields) (nm : String), nm ≠ "Items" → nm ≠ "OrderedItems" → Flatten.strOf (swapItems fs) nm = Flatten.strOf fs nm :=
+      fun fs nm h1 h2 => by simp [Flatten.strOf, get_swapItems fs nm h1 h2]
+    constructor
+    · rw [C09_guards (swapItems o) _ (by
+        rcases h with h | h
+        · left; simpa [Flatten.linkOf, hs] using h
+        · right; simpa [typeOf, hs] using h) T rec]; simp
+    · rw [C09_guards (swapItems w) _ (by
+        rcases h with h | h
+        · left; rw [iriEqvCS_symm]; simpa [Flatten.linkOf, hs] using h
+        · right; rw [IRI.foldEq_symm]; simpa [typeOf, hs] using h) T rec]; simp
+  simp only [core, isIRI, isColl, Bool.or_self, Bool.false_eq_true, if_false]
+  cases k with
+  | link =>
+    simp only [linkEquals]
+    have : (iriEqvCS (Flatten.strOf o "ID") (Flatten.strOf w "ID") && IRI.foldEq (Flatten.strOf o "Type") (Flatten.strOf w "Type")) = false := by
+      rcases h with h | h <;> simp [h]
+    simp [this]
+  | _ =>
+    simp only [beq_self_eq_true, if_true, reduceCtorEq, Bool.false_eq_true, if_false]
+    all_goals first
+      | (simp only [(by decide : (Kind.object == Kind.link) = false)]; done)
+      | skip
+    all_goals
+      simp only [familyEquals, collectionEquals]
+      repeat' split
+      all_goals first
+        | (rw [h1]; simp; done)
+        | (simp [h1]; done)
+        | (apply andO_ne_true_of_first; first
+            | (rw [h1]; simp; done)
+            | (rw [h2]; simp; done)
+            | exact (h3 _ _ _).1
+            | exact (h3 _ _ _).2
+            | (apply andO_ne_true_of_first; first
+                | (rw [h1]; simp; done)
+                | (rw [h2]; simp; done)
+                | exact (h3 _ _ _).1
+                | exact (h3 _ _ _).2
+                | (apply andO_ne_true_of_first; first
+                    | (rw [h1]; simp; done)
+                    | (rw [h2]; simp; done)
+                    | exact (h3 _ _ _).1
+                    | exact (h3 _ _ _).2)))
+        | simp
+
+/-! ### one property changed -/
+
+theorem allO_ne_true_of_mem {α : Type} (f : α → Option Bool) (l : List α) (x : α) (hx : x ∈ l)
+    (h : f x ≠ some true) : allO f l ≠ some true := by
+  induction l with
+  | nil => simp at hx
+  | cons a r ih =>
+    simp only [allO]
+    rcases List.mem_cons.mp hx with rfl | hx'
+    · exact andO_ne_true_of_first _ _ h
+    · unfold andO
+      cases hf : f a with
+      | none => simp
+      | some b => cases b <;> simp_all
+
+theorem andO_ne_true_of_second (a : Option Bool) (b : Unit → Option Bool) (hb : b () ≠ some true) :
+    andO a b ≠ some true := by
+  unfold andO
+  cases a with
+  | none => simp
+  | some x => cases x <;> simp_all
+
+/-- If some comparison row of `Object.Equals` does not hold between the receiver's fields and the
+argument's, `Object.Equals` is not true. -/
+theorem objectEquals_row (T : List EqualsRow) (rec : Rec) (o w : Fields) (k : Kind) (p : Bool)
+    (row : String × String × String) (hrow : row ∈ rowsOf T "Object") (hne : rowHolds rec o w row ≠ some true) :
+    objectEquals T rec o (.node k p w) ≠ some true := by
+  simp only [objectEquals]
+  split
+  · simp
+  · split
+    · simp
+    · exact allO_ne_true_of_mem _ _ row hrow hne
+
+/-- Changing one property of the object core: for two values of the same non-collection struct, if the
+comparison row of that property does not hold (the second argument carries a value for it that the
+first does not equal), they are never equal. Covers objects, actors, (intransitive) activities,
+questions, places, profiles, relationships and tombstones. -/
+theorem C09_core_property (T : List EqualsRow) (n : Nat) (k : Kind) (p q : Bool) (o w : Fields)
+    (hk : isCollKind k = false) (hl : k ≠ .link)
+    (row : String × String × String) (hrow : row ∈ rowsOf T "Object") (hne : rowHolds (eqF T n) o w row ≠ some true) :
+    core T (eqF T n) (.node k p o) (.node k q w) ≠ some true := by
+  have h1 : ∀ (kk : Kind) (pp : Bool), objectEquals T (eqF T n) o (.node kk pp w) ≠ some true :=
+    fun kk pp => objectEquals_row T _ o w kk pp row hrow hne
+  cases k
+  all_goals first
+    | (exfalso; exact hl rfl)
+    | (exfalso; revert hk; decide)
+    | skip
+  all_goals
+    simp only [core, isIRI, isColl, Bool.or_self, Bool.false_eq_true, if_false, familyEquals, beq_self_eq_true, if_true, isCollKind,
+      reduceCtorEq, Bool.or_false]
+    try simp only [(by decide : (Kind.object == Kind.link) = false), (by decide : (Kind.actor == Kind.link) = false), (by decide : (Kind.activity == Kind.link) = false), (by decide : (Kind.intransitive == Kind.link) = false), (by decide : (Kind.question == Kind.link) = false), (by decide : (Kind.place == Kind.link) = false), (by decide : (Kind.profile == Kind.link) = false), (by decide : (Kind.relationship == Kind.link) = false), (by decide : (Kind.tombstone == Kind.link) = false), Bool.false_eq_true, if_false]
+    repeat' split
+    all_goals first
+      | exact h1 _ _
+      | (apply andO_ne_true_of_first; first
+          | exact h1 _ _
+          | (apply andO_ne_true_of_first; exact h1 _ _))
+      | simp
+
+
+/-- …and for a transitive activity its actor, target, result, origin, instrument (rows of
+IntransitiveActivity.Equals) and its object (row of Activity.Equals). -/
+theorem C09_activity_property (T : List EqualsRow) (n : Nat) (p q : Bool) (o w : Fields)
+    (hw : Flatten.typeIn activityTypesGo (Flatten.strOf w "Type") = true)
+    (row : String × String × String)
+    (hrow : row ∈ rowsOf T "IntransitiveActivity" ∨ row ∈ rowsOf T "Activity")
+    (hne : rowHolds (eqF T n) o w row ≠ some true) :
+    core T (eqF T n) (.node .activity p o) (.node .activity q w) ≠ some true := by
+  simp only [core, isIRI, isColl, Bool.or_self, Bool.false_eq_true, if_false, familyEquals, hw, if_true,
+    beq_self_eq_true]
+  simp only [(by decide : (Kind.activity == Kind.link) = false), Bool.false_eq_true, if_false]
+  rcases hrow with hrow | hrow
+  · apply andO_ne_true_of_first
+    apply andO_ne_true_of_second
+    exact allO_ne_true_of_mem _ _ row hrow hne
+  · apply andO_ne_true_of_second
+    exact allO_ne_true_of_mem _ _ row hrow hne
+
+/-- the regenerated tables compare every property the statement lists: the object core other than media
+type and source, and actor/object/target/result/origin/instrument of activities. -/
+theorem C09_rows_complete :
+    ["Name", "Summary", "Content", "Attachment", "AttributedTo", "Audience", "Context", "Generator", "Icon", "Image",
+     "InReplyTo", "Location", "Preview", "Replies", "Tag", "URL", "To", "Bto", "CC", "BCC", "Published", "Updated",
+     "StartTime", "EndTime", "Duration", "Likes", "Shares"].all
+        (fun f => (rowsOf equalsRows "Object").any (fun r => r.1 == f)) = true ∧
+    ["Actor", "Target", "Result", "Origin", "Instrument"].all
+        (fun f => (rowsOf equalsRows "IntransitiveActivity").any (fun r => r.1 == f)) = true ∧
+    (rowsOf equalsRows "Activity").any (fun r => r.1 == "Object") = true := by
+  decide
+
 end APModel.Equal
